@@ -39,6 +39,12 @@ CHECKS = {
     "C13": ("E1", "bounded-exhaustive enumeration of multigraphs x KSP configurations on the real k-shortest-paths code inside sandbox worker processes with per-case deadlines",
             "Every enumerated network x {single-via, Yen} x k x similarity x termination criterion x underlying search (k from configuration or query): 1..k routes when reachable, first is least cost (Bellman-Ford), every route passes the C01 structure clauses, is loop free and passes the C03 accumulation oracle, pairwise distinct, pairwise below the similarity threshold (reference cosine), accept-all >= any threshold, terminates within the deadline, never an error for an answerable query.",
             "Trusted: sandbox classification of hangs; reference similarity. Yen's quick tier uses a covering half of its configuration product (its hanging cases cost a full timeout each).", "§4.13"),
+    "C15": ("E1", "bounded-exhaustive enumeration of edge/vertex lists x file variants loaded by the real loaders vs the lists themselves",
+            "All G(3,m,2) multigraphs with self loops, stars and hubs with in/out degree 0..8 and isolated vertices are written as plain and gzip CSV in all 6 vertex column orders, with extra columns, with explicit or scanned counts, loaded through Graph::from_files and DefaultGraphBuilder and compared accessor by accessor (counts, edges by id, vertices, out/in edge sets, triplets, forward = reverse view); per-edge tables (speed, grade, class, heading) row-aligned; bindings accessors.",
+            "Trusted: the lists the files were written from. Coordinates written as shortest f32 decimal so comparison is exact.", "§4.15"),
+    "C16": ("E1", "bounded-exhaustive enumeration of lattice vertex/edge sets x query lattice x tolerances x filters on the real matching plugins vs exhaustive scan",
+            "All 255 vertex subsets (size 1-4) of a 3x3 lattice and 6 edge sets x 52 query points (inside, on, beyond the network, far away) x 17 tolerances (none; 100/700/1300/5000 m in 4 units) x 6 road-class/vehicle filters: the matched id is in the argmin of the plugin's own measure over admissible candidates, beyond tolerance is an error, within tolerance always matches, all other query fields unchanged.",
+            "Trusted: exhaustive scan reference; ties accepted; cases within 2e-3 of the tolerance boundary skipped.", "§4.16"),
     "C17": ("E1", "bounded-exhaustive enumeration of grid-search sections on the real plugin vs reference Cartesian product",
             "1-3 grid fields x sizes 1-3(4) x element kinds (scalar, object with 1-2 keys, mixed) x every key order x extra fields x section position, through GridSearchPlugin::process and apply_input_plugins: canonical multiset of outputs equals the reference product, count = product of sizes, no grid key left, extras preserved, pass-through unchanged.",
             "Trusted: reference product (props/c17.rs). Object-valued choices use disjoint keys.", "§4.17"),
